@@ -104,6 +104,19 @@ def pair_cases(tier, routes=ROUTES, mult4=False, api_labels=True, sweep_pot='pol
     for i, (cutoff, nr) in enumerate(grid_lattice(tier, mult4)):
         for route in (routes if tier != 'quick' else [routes[i % len(routes)]]):
             out.append(dict(route=route, cutoff=cutoff, nr=nr, pots=[['A', 'B', sweep_pot]], sweep=True))
+    # (4b) hash(-1) == hash(-2): two pairs whose parameter lists differ only by -1 <-> -2, both orders
+    for (cutoff, nr) in G[:2]:
+        for a_, b_ in (('qq_m1', 'qq_m2'), ('qq_m2', 'qq_m1'), ('coul_m1', 'coul_m2'), ('coul_m2', 'coul_m1')):
+            if from_zero and not (regular_at_zero(a_) and regular_at_zero(b_)):
+                continue
+            for route in routes:
+                out.append(dict(route=route, cutoff=cutoff, nr=nr, pots=[['Ca', 'F', a_], ['Ca', 'O', b_], ['O', 'F', a_]]))
+    # (4c) very large output (several MiB): 15 pairs on a 12 000-row grid
+    big_names = [n for n in names if n in ('buck', 'morse', 'lj', 'polynomial', 'hbnd')] or names[:3]
+    sp5 = ['A', 'B', 'C', 'D', 'E']
+    pairs15 = [(sp5[i], sp5[j]) for i in range(5) for j in range(i, 5)]
+    for route in (routes if tier != 'quick' else routes[:1] + routes[-1:]):
+        out.append(dict(route=route, cutoff=10.0, nr=12000, pots=[[a_, b_, big_names[k % len(big_names)]] for k, (a_, b_) in enumerate(pairs15)], big=True))
     # (5) histories: the same table after a tabulation that failed at its k-th evaluation in this process
     for k in (1, 2, 3, 4, 5, 6, 7, 9):
         for route in routes:
@@ -195,7 +208,7 @@ def ill_conditioned(name, route, rr):
     key = (name, semantics(name, route))
     if key not in _bp_cache:
         _fn, _num, d2 = ref(name, route)
-        _bp_cache[key] = X.breakpoints(d2) if d2 is not None else set()
+        _bp_cache[key] = X.breakpoints(d2) if d2 is not None else set(M.PY_BREAKPOINTS.get(name, []))
     return X.near_breakpoint(_bp_cache[key], rr)
 
 
